@@ -637,9 +637,9 @@ func poolReceiver(rng *rand.Rand, out *Out, chainD []*nom.DetailedMomentum, fs [
 			}
 			out.Oracle(false, "producer-momentum-accepted", M{"schedule": tag + ":" + name, "receiver_frontier_height": pos + 1,
 				"delivered_heights": fmt.Sprintf("%d..%d", pos+2, pos+length+1), "index": idx, "refused_height": refusedIdx + 2, "err": err.Error(),
-				"account_blocks_in_refused_momentum": len(chainD[refusedIdx].AccountBlocks),
+				"account_blocks_in_refused_momentum":                                           len(chainD[refusedIdx].AccountBlocks),
 				"foreign_blocks_gossiped_to_the_receiver_for_accounts_of_the_refused_momentum": inMomentum,
-				"other_foreign_blocks_in_the_receivers_pool": inPool})
+				"other_foreign_blocks_in_the_receivers_pool":                                   inPool})
 			return r, refusedIdx + 2, err
 		}
 		cnt("deliver")
